@@ -883,7 +883,11 @@ impl EdnsData {
     }
 
     pub fn get_cookie(&self) -> Option<(&[u8], Option<&[u8]>)> {
+        /* RFC7873: the client cookie is exactly 8 octets, a shorter option is malformed and is
+         * treated as if no cookie was sent.
+         */
         self.get_opt(&EDNS_COOKIE)
+            .filter(|opt| opt.data.len() >= 8)
             .map(|opt| (&opt.data[..8], opt.data.get(8..)))
     }
 
